@@ -547,6 +547,12 @@ React(s, f) ==
 ---------------------------------------------------------------------------
 (* Actions *)
 Valid(s, f) == LET c == Sozu(s, f) IN c.r = Handle /\ c.why = "-" /\ ~c.s.gs /\ c.r \in React(s, f)
+\* generators: the prefix may also contain the FIRST stream error sozu answers (a refused stream, a stream reset for a
+\* zero increment, a malformed block...): the connection lives on, and the states behind it (a stream id sozu has
+\* reset or refused, watermarks apart) are where the closed-vs-idle classification of later frames is decided
+FirstReset(s, f) == LET c == Sozu(s, f)
+                    IN Generating /\ Focus = "all" /\ c.r.k = "rst" /\ c.why = "-" /\ ~c.s.gs /\ s.fc.rstEm = 0
+                       /\ c.r \in React(s, f)
 
 Step(op, f, c, adm, blk, fwd, dev, trl, tx, lg) ==
   [op |-> op, f |-> f, code |-> c, adm |-> adm, blk |-> blk, fwd |-> fwd, dev |-> dev, trl |-> trl, tx |-> tx, lg |-> lg]
@@ -566,7 +572,13 @@ HRec(h) == IF Generating THEN Append(hist, h) ELSE hist
 \* response bytes the frame sets free (the code model's prediction; only meaningful when the reaction is the predicted one)
 TxOf(s, f) == LET c == SozuRaw(s, f) IN IF Dead(s) \/ c.s.gs THEN {} ELSE TxSet(c.s)
 \* the ledger situation the frame meets (which windows decide the reaction, and in which class they are)
-Lg(s, f) ==
+\* ... and where the frame's stream id stands: its state, above / below the two watermarks (an id sozu refused is above
+\* last_stream_id but not above highest_peer_stream_id), reset by sozu with the entry kept
+IdClass(s, f) ==
+  IF f.sid = 0 THEN {}
+  ELSE {<<"id", StOf(s, f.sid), IF f.sid > s.wm THEN "above-wm" ELSE IF f.sid > s.hi THEN "above-hi" ELSE "-">>}
+       \cup (IF f.sid \in s.rsent THEN {<<"id", "rsent", "-">>} ELSE {})
+Lg(s, f) == IdClass(s, f) \cup
   CASE f.ty = "WU" /\ f.sid = 0 /\ f.len = "ok" -> {<<"conn", LClass(s.cw), "-">>}
     [] f.ty = "WU" /\ f.len = "ok" /\ InMap(s, f.sid) ->
          {<<"stream", LClass(s.sw[f.sid]), IF s.rem[f.sid] > 0 THEN "stalled" ELSE "-">>}
@@ -612,7 +624,7 @@ Peer_Frame(f) ==
   /\ (Emit = "walk" /\ Focus = "win" => f \in WinAlphabet)
   /\ StepAlphabet(f)
   /\ LET c == Sozu(st, f)
-         pre == InPrefix(st) /\ Valid(st, f) /\ PrefixAlphabet(f)
+         pre == InPrefix(st) /\ (Valid(st, f) \/ FirstReset(st, f)) /\ PrefixAlphabet(f)
      IN /\ (Generating /\ InPrefix(st)) => pre                                 \* generator: valid prefix first
         /\ st' = [c.s EXCEPT !.depth = IF Emit = "mc" THEN @ ELSE @ + 1,
                              !.nvalid = IF pre THEN @ + 1 ELSE @,
